@@ -46,7 +46,7 @@ PROBES = ["kind:p2pk", "kind:p2pkh", "kind:multisig", "kind:p2sh-multisig", "kin
           "sighash_direct_256", "codeseparator_script", "noncommitted_change_still_valid", "committed_change_invalidates",
           "revalidate_fresh_equal", "default_flags_verdict_checked", "inputs>=253", "spendable_form_text", "spendable_form_dict", "spendable_form_bin", "wire_big_inputs", "wire_big_outputs",
           "wire_big_out_script", "wire_big_in_script", "wire_big_witness_item", "wire_big_witness_count",
-          "oneshot_create_signed_tx", "oneshot_refused_missing_key", "check_solution_entry", "sighash_script_code>=253", "pass_over_short_signature", "solver_object_reused", "checker_object_reused", "validated_with_kept_context", "validated_with_short_unspents_list"]
+          "oneshot_create_signed_tx", "oneshot_refused_missing_key", "check_solution_entry", "sighash_script_code>=253", "pass_over_short_signature", "solver_object_reused", "checker_object_reused", "validated_with_kept_context", "validated_with_short_unspents_list", "validated_as_another_coin_in_same_process"]
 # (wire_tx_* probes are fired by the wire_tx step, which only the S-WIRE planner emits; they are declared there)
 
 _STD = None
@@ -232,7 +232,8 @@ def gen_plan(rng, tier, index, config=None):
             ncopies += 1
         elif op == "validate":
             steps.append({"op": "validate", "copy": cp, "how": r.pick(["each", "each", "count", "check_solution", "kept_context"]),
-                          "short_unspents": r.pick([None, None, None, 0, 1, 2])})
+                          "short_unspents": r.pick([None, None, None, 0, 1, 2]),
+                          "abroad": r.pick([None, None, "BTC", "GRS"])})
         elif op == "tamper":
             forkcoin = sigkind in ("bch", "btg")
             kind = r.weighted([("version", 2), ("locktime", 2), ("outpoint", 2), ("sequence", 2), ("out_value", 3),
@@ -497,6 +498,7 @@ def execute(plan, ctx):
         W.net = network_for_netcode(cfg["network"])
         W.Tx = W.net.tx
     W.sig = cfg["sig"]
+    W.cfg_network = cfg["network"]
     W.forkid = cfg["sig"] in ("bch", "btg")
     W.single = cfg["sig"] == "grs"
     if W.single:
@@ -1180,6 +1182,36 @@ def _op_validate(ctx, W, st):
             for fl in (flags, None):
                 if _pyc_std(W, ctx, cp.obj, j, fl) is True:
                     ctx.violate("C06", "valid-without-spent-output", {"input": j})
+    # the same bytes handed to a node of another coin, in the same process, right after this coin's validation: what that
+    # coin's rules say (its own digest algorithm), never what this coin's validation left behind
+    ab = st.get("abroad")
+    if ab and cp.ht_only and ab != W.cfg_network and all(u is not None for u in cp.u):
+        try:
+            W2 = _W()
+            if ab == "GRS":
+                from pycoin.coins.groestlcoin.Tx import Tx as W2Tx
+            else:
+                from pycoin.networks.registry import network_for_netcode as _nfn
+                W2Tx = _nfn(ab).tx
+            W2.Tx = W2Tx
+            W2.rec = W.rec
+            Vf = sv.Validator({"sig": "grs" if ab == "GRS" else "btc"}, strict=False)
+            foreign = _mk_obj(W2, cp.m, cp.u)
+            for j in range(len(cp.m["ins"])):
+                lax = Vf.input(cp.m, j, cp.u[j])
+                if lax.valid is None:
+                    continue
+                d = _pyc_std(W2, ctx, foreign, j, None)
+                if isinstance(d, tuple):
+                    continue
+                ctx.probe("validated_as_another_coin_in_same_process")
+                if d != lax.valid:
+                    ctx.violate("C06", "verdict-leaks-between-coins", {"input": j, "pycoin": d, "model": lax.valid, "as": ab,
+                                                                       "own": W.cfg_network, "kind": lax.kind, "why": lax.why})
+        except Abort:
+            raise
+        except Exception as e:
+            raise HarnessError("abroad validation: %s %s" % (type(e).__name__, str(e)[:120]))
     # a fresh object gives the same verdicts as the long-lived one
     if all(v.valid is not None for v in verdicts):
         try:
